@@ -533,7 +533,7 @@ static SCase gen_seq() {
 int main(int argc, char **argv) {
     std::string mode = argc > 1 ? argv[1] : "seq";
     dsched::on_fatal() = fatal_hook;
-    { const char *e = getenv("C31_KNOWN_PIVOT_OVERFLOW"); g_include_pivot_overflow = (e && std::string(e) == "include") || mode == "replay"; }
+    { const char *e = getenv("C31_KNOWN_PIVOT_OVERFLOW"); g_include_pivot_overflow = !(e && std::string(e) == "exclude") || mode == "replay"; }   // repaired in /repo (bf42d8f): included by default
     if (mode == "replay") {
         std::string txt = vf::slurp(argv[2]);
         if (txt.rfind("C31-stress", 0) == 0) { int T; long it; unsigned sd; sscanf(txt.c_str(), "C31-stress threads %d iters %ld seed %u", &T, &it, &sd); int r = 0; for (int k = 0; k < 3 && !r; k++) r = do_stress(T, it, sd); printf(r ? "REPLAY-FAIL stress\n" : "REPLAY-PASS\n"); return r; }
